@@ -199,6 +199,9 @@ func (m *StringifiedMessage) encode(d *Decoder, sb *strings.Builder, tagType byt
 		if listLen < 0 {
 			return errors.New("list length less than 0")
 		}
+		if listType > TagLongArray {
+			return fmt.Errorf("unknown to read 0x%02x", listType)
+		}
 		first := true
 		sb.WriteString("[")
 		for i := 0; i < int(listLen); i++ {
